@@ -107,6 +107,8 @@ class System:
     def value(self, v, n):
         """Decode a plan value: {'v': float, 'arr': bool} -> float or length-n array."""
         if isinstance(v, dict):
+            if 'raw' in v:
+                return np.asarray(v['raw'], dtype=np.float64) if isinstance(v['raw'], list) else float(v['raw'])
             if v.get('arr') and n:
                 return np.asarray([v['v'] * (1.0 + 0.05 * k) for k in range(n)], dtype=np.float64) \
                     if not v.get('zero_at') else \
@@ -134,6 +136,18 @@ class System:
             o.set_state(w, **a)
         elif kind == 'o.setter':
             getattr(o, op['name'])(w.name if op.get('sig') == 'name' else w, a['value'])
+        elif kind == 'w.aug':
+            # augmented assignment on a world property (`world.n *= 0.5`): the object handed back to the setter is the very
+            # array the orbit already stores, modified in place
+            cur = getattr(w, op['name'])
+            if cur is None:
+                return 'skipped'
+            if isinstance(cur, np.ndarray):
+                cur *= op['factor']
+            else:
+                cur = cur * op['factor']
+            setattr(w, op['name'], cur)
+            return {'raw': cur.tolist() if isinstance(cur, np.ndarray) else float(cur)}
         elif kind == 'w.prop':
             setattr(w, op['name'], a['value'])
         elif kind == 'w.method':
